@@ -108,6 +108,7 @@ def dialect_spec(rng, i):
     if rng.random() < 0.3:
         spec["int"] = "both"
     spec["bytes"] = rng.random() < 0.25      # a type the msgpack format dialect customises itself
+    spec["inherit"] = rng.random() < 0.3
     for o in ("omit_none", "omit_default", "serialize_by_alias", "namedtuple_as_dict"):
         if rng.random() < 0.45:
             spec["opts"][o] = rng.random() < 0.65
@@ -151,6 +152,11 @@ def dialect_src(spec, name=None, i=0):
     if spec["int"]:
         k = len(tag)
         ss.append(f"int: {{'serialize': (lambda v: v + {k}), 'deserialize': (lambda v: v - {k})}}")
+    if spec.get("inherit") and spec["opts"]:
+        # the options live on a parent dialect, the dialect in use only inherits them
+        lines = [f"class {name}_Base(Dialect):"] + [f"    {o} = {v}" for o, v in spec["opts"].items()]
+        lines += [f"class {name}({name}_Base):", "    serialization_strategy = {" + ", ".join(ss) + "}"]
+        return "\n".join(lines) + "\n"
     lines = [f"class {name}(Dialect):", "    serialization_strategy = {" + ", ".join(ss) + "}"]
     for o, v in spec["opts"].items():
         lines.append(f"    {o} = {v}")
@@ -215,6 +221,8 @@ def mkval(mod, cls, r):
         return mod.C(r.randint(0, 5), y=D(2011, 1, 1), al2=r.choice([None, D(2012, 1, 1)]), node=node)
     if cls == "Node":
         return mod.Node(5, r.choice([None, D(2017, 7, 7)]), mod.Node(6, D(2018, 8, 8)), [mod.Node(7, D(2019, 9, 9))])
+    if cls == "Late":
+        return mod.Late(r.randint(0, 5), D(2010, 2, r.randint(1, 28)), extra=D(2014, 1, 1), more=mod.In(D(2015, 1, 1)))
     return mod.In(D(2013, 1, 1), r.choice([None, 1]), 4)
 
 
@@ -245,10 +253,19 @@ def part_a(seed, tier, rec, rng):
         nsteps = rng.randint(4, 12 if tier == "quick" else 40)
         hist = []
         twin_cache = {}
+        # a subclass of P defined in the MIDDLE of the history (after P was used with dialects); the twins have it
+        # from the start
+        late_src = ("@dataclass\nclass Late(P):\n    extra: datetime.date = datetime.date(2003, 4, 5)\n    more: Optional[In] = None\n"
+                    "    class Config(BaseConfig):\n        code_generation_options = [ADD_DIALECT_SUPPORT]\n")
+        late_at = rng.randint(1, nsteps - 1) if rng.random() < 0.5 else None
+        classes_now = ["P", "C", "In", "Node"]
         for step in range(nsteps):
+            if step == late_at:
+                fam.exec_src(late_src)
+                classes_now.append("Late")
             rec.evaluation()
             spec = rng.choice([None] + specs)
-            cls = rng.choice(["P", "C", "In", "Node"])
+            cls = rng.choice(classes_now)
             op = rng.choice(["to_dict", "from_dict"] + ([to_m, from_m] if to_m else []))
             vseed = rng.getrandbits(32)
             dname = spec["name"] if spec else None
@@ -257,7 +274,7 @@ def part_a(seed, tier, rec, rng):
             # history started, from the same source)
             if dname not in twin_cache:
                 tw = Family("c13t")
-                tw.exec_src(dsrc + tree_src(base, dname, lazy))
+                tw.exec_src(dsrc + tree_src(base, dname, lazy) + (late_src.replace("[ADD_DIALECT_SUPPORT]\n", "[ADD_DIALECT_SUPPORT]\n" + (f"        dialect = {dname}\n" if dname else "")) if late_at is not None else ""))
                 twins.append(tw)
                 twin_cache[dname] = tw.module
             tmod = twin_cache[dname]
